@@ -395,7 +395,7 @@ def main(tier, seed):
             shards.append({'part': 'history', 'prefix': [a, b], 'depth': depth - pre, 'fresh': hfresh, 'judge_prefix': True})
     S2 = scenarios('shared')
     sfresh = fresh_outcomes(S2)
-    sdepth = 6 if tier == 'thorough' else 4
+    sdepth = 5 if tier == 'thorough' else 4
     shards.append({'part': 'history', 'which': 'shared', 'prefix': [], 'depth': 0, 'fresh': sfresh, 'judge_prefix': False})
     for a in range(len(S2)):
         shards.append({'part': 'history', 'which': 'shared', 'prefix': [a], 'depth': 0, 'fresh': sfresh, 'judge_prefix': True})
